@@ -2,7 +2,9 @@
   C01/FnSyntax — µJS with functions: closures, this, call/apply/bind, constructors and prototype
   chains, the arguments object, direct and indirect eval, function/var hoisting.  Own cons-lists.
   (The statement forms with labels are the subject of Syntax.lean/Model.lean/Spec.lean and their
-  refinement theorem; here statements are the few needed to exercise functions.)
+  refinement theorem; here statements are those needed to exercise functions, plus the two forms
+  that need objects and environments and are therefore absent from the statement layer: `with`
+  and `for-in`, with labels/break/continue so that every way of leaving them can be written.)
 -/
 namespace OttoVerif.C01.Fn
 
@@ -38,6 +40,9 @@ inductive FE where
   | typeof (e : FE)
   | inst (a f : FE)                                 -- a instanceof f
   | log (e : FE)                                    -- host call, returns its argument
+  /-- Object.defineProperty(o, "p", {value: e, enumerable: false, writable: true, configurable: true}) -/
+  | defNE (o : FE) (p : String) (e : FE)
+  | val (e : FE)                                    -- (0, e): GetValue, so a call through it has no base
   /-- direct eval("…") of a program given here in parsed form -/
   | evalD (vars : List String) (decls : FDecls) (body : FSs)
   /-- indirect eval: (0, eval)("…") -/
@@ -55,6 +60,13 @@ inductive FS where
   | whileS (c : FE) (b : FSs)
   | throwS (e : FE)
   | tryS (b : FSs) (hasCatch : Bool) (param : String) (c : FSs) (hasFin : Bool) (f : FSs)
+  | varS (x : String) (e : FE)                      -- var x = e;  (the declaration itself is in `vars`)
+  | block (b : FSs)                                 -- { … }
+  | withS (o : FE) (b : FSs)                        -- with (o) { … }
+  | forIn (isVar : Bool) (x : String) (o : FE) (b : FSs)   -- for (x in o) { … } / for (var x in o) { … }
+  | label (l : String) (s : FS)                     -- l: s
+  | brk (l : Option String)                         -- break [l];
+  | cont (l : Option String)                        -- continue [l];
 inductive FSs where
   | nil | cons (s : FS) (r : FSs)
 end
